@@ -36,6 +36,9 @@ def gen_g(out):
 def both_all(sg, build_ops, fused, composed, tol):
     """both(...) for every non-empty subset of operands requiring grad (a mix of tracked and untracked operands)"""
     K = len(build_ops())
+    mv = both(sg, build_ops, fused, composed, tol, views=True)
+    if mv:
+        return "operands that are transposed views of other tensors: " + mv
     if K == 1 or K > 3:
         return both(sg, build_ops, fused, composed, tol)
     for mask in range(1, 2 ** K):
@@ -45,7 +48,14 @@ def both_all(sg, build_ops, fused, composed, tol):
     return None
 
 
-def both(sg, build_ops, fused, composed, tol, rg=None, gmode="exact"):
+def bases_src(build_ops, rg):
+    T = build_ops()
+    for t, r in zip(T, rg):
+        t.requires_grad = r
+    return T
+
+
+def both(sg, build_ops, fused, composed, tol, rg=None, gmode="exact", views=False):
     """runs both forms on fresh copies of the same operands; returns message or None"""
     res = []
     for fn in (fused, composed):
@@ -53,6 +63,22 @@ def both(sg, build_ops, fused, composed, tol, rg=None, gmode="exact"):
         if rg is not None:
             for t, r in zip(T, rg):
                 t.requires_grad = r
+        bases = T
+        if views:
+            # the operands are results of other operations: transposed views of leaves holding the reversed-dims array
+            bases, T = [], []
+            for t in build_ops() if rg is None else [sg.Tensor(t.data.copy(), requires_grad=t.requires_grad) for t in bases_src(build_ops, rg)]:
+                if sum(1 for n in t.data.shape if n > 1) >= 2 and t.data.dtype.kind == "f":
+                    b = sg.Tensor(np.ascontiguousarray(t.data.T), requires_grad=t.requires_grad)
+                    x, n = b, t.data.ndim
+                    with repo.quiet():
+                        for i in range(n // 2):
+                            x = x.transpose(i, n - 1 - i)
+                    bases.append((b, True))
+                    T.append(x)
+                else:
+                    bases.append((t, False))
+                    T.append(t)
         try:
             with repo.quiet(), np.errstate(all="ignore"):
                 out = fn(*T)
@@ -66,7 +92,10 @@ def both(sg, build_ops, fused, composed, tol, rg=None, gmode="exact"):
                 # a second sweep from another upstream gradient over the same graph: the accumulated gradients must
                 # coincide as well (whatever either form saved for its backward pass is still intact)
                 out.backward(sg.Tensor((gen_g(out)[::-1].reshape(out.data.shape) if out.data.ndim else gen_g(out) * 3).astype(out.data.dtype)))
-            grads = [None if t.grad is None else t.grad.data.astype(np.float64) for t in T]
+            if views:
+                grads = [None if b.grad is None else (b.grad.data.T if tr else b.grad.data).astype(np.float64) for b, tr in bases]
+            else:
+                grads = [None if t.grad is None else t.grad.data.astype(np.float64) for t in T]
         res.append(("ok", out.data.astype(np.float64), grads))
     (s1, o1, g1), (s2, o2, g2) = res
     if s1 == "raised" and s2 == "raised":
@@ -254,7 +283,7 @@ def run(ctx):
             modules_part(sg, rep)
         elif "idcase" in rp:
             b, f, c2 = id_case(sg, rp["idcase"])
-            m = both(sg, b, f, c2, 1e-9)
+            m = both_all(sg, b, f, c2, 1e-9)
             if m:
                 rep.violation("replay", m)
         else:
